@@ -12,10 +12,21 @@ EPOCH_US = int(np.datetime64("1904-01-01T00:00:00", "us").astype("int64"))
 
 
 @harness("timestamp_encode", "types.TimeStamp.__init__", ["C12", "C07"],
-         note="all datetime64[us] values (symbolic microsecond count, also before 1904): integer obligations")
+         variants=[("datetime64[%s]" % u, u) for u in ("us", "ms", "s", "ns")],
+         note="all microsecond-resolution datetimes (symbolic count, also before 1904) given as datetime64 of unit "
+              "us, ms, s, or ns (a whole number of microseconds): integer obligations")
 def _encode(vc):
-    t = vc.int("t_us", lo=-2 ** 62, hi=2 ** 62)           # microseconds since 1970 (A-INT: no int64 overflow)
-    v = DT64(t, "us")
+    unit = vc.variant
+    t = vc.int("t_us", lo=-2 ** 50, hi=2 ** 50)           # microseconds since 1970 (A-INT: no int64 overflow)
+    if unit == "us":
+        v = DT64(t, "us")
+    elif unit == "ns":
+        v = DT64(t * 1000, "ns")
+    else:
+        k = {"ms": 10 ** 3, "s": 10 ** 6}[unit]
+        c = vc.int("count_" + unit, lo=-2 ** 40, hi=2 ** 40)
+        vc.assume(t == c * k)
+        v = DT64(c, unit)
     cls = vc.interp.get("types.TimeStamp")
     out = vc.call(cls, v)
     vc.ensure("no-exception", out.kind == "ret")
